@@ -218,18 +218,17 @@ func runC14(t *testing.T, sched simrt.Schedule, prog c14Prog) ([]Violation, RunS
 				}
 			}
 		}
-		for _, c := range w.Clients {
-			for _, s := range c.Sents {
-				if s.Msg != nil && s.Msg.Del != nil && s.Msg.Del.What == "user" && s.Code >= 200 && s.Code < 300 {
-					for g, gs := range sc.Groups {
-						if gs.Owner == c.User.Idx && g < len(w.Groups) {
-							killed[w.Groups[g]] = kAcc
-						}
+		for _, u := range w.Users {
+			// the account is gone from the store (the reply to {del user} may never reach the evicted client)
+			if ur := w.Disk.Users[u.Uid]; ur == nil || ur.State == types.StateDeleted {
+				for g, gs := range sc.Groups {
+					if gs.Owner == u.Idx && g < len(w.Groups) {
+						killed[w.Groups[g]] = kAcc
 					}
-					for _, p := range sc.P2P {
-						if p[0] == c.User.Idx || p[1] == c.User.Idx {
-							killed[w.Users[p[0]].Uid.P2PName(w.Users[p[1]].Uid)] = kAcc
-						}
+				}
+				for _, p := range sc.P2P {
+					if p[0] == u.Idx || p[1] == u.Idx {
+						killed[w.Users[p[0]].Uid.P2PName(w.Users[p[1]].Uid)] = kAcc
 					}
 				}
 			}
@@ -255,6 +254,38 @@ func runC14(t *testing.T, sched simrt.Schedule, prog c14Prog) ([]Violation, RunS
 		// a session whose {sub}/{leave} was swallowed that way never gets its in-flight slot back
 		// (capacity 1): its read loop blocks in boundedWaitGroup.Add at the next {sub}/{leave}, and nothing
 		// it sends afterwards is answered. Same finding.
+		// ... also when the swallowed request itself is not reported because its connection was closed later:
+		// the blocked read loop cannot even notice the close, the session stays registered
+		for _, c := range w.Clients {
+			for _, s := range c.Sents {
+				if s.Msg == nil || s.Answered || (s.Msg.Sub == nil && s.Msg.Leave == nil && s.Msg.Del == nil) {
+					continue
+				}
+				name := ""
+				switch {
+				case s.Msg.Sub != nil:
+					name = s.Msg.Sub.Topic
+				case s.Msg.Leave != nil:
+					name = s.Msg.Leave.Topic
+				case s.Msg.Del != nil:
+					name = s.Msg.Del.Topic
+				}
+				g := w.globalName(c, name)
+				if types.IsChannel(g) {
+					g = types.ChnToGrp(g)
+				}
+				if key := killed[g]; key != "" {
+					for j := range out {
+						if strings.HasPrefix(out[j].Key, fmt.Sprintf("hang client%d.", c.Idx)) && strings.Contains(out[j].Key, "@sessionstore.go:") {
+							out[j].Key = key
+						}
+						if out[j].Key == "closed-connection-still-registered" && strings.Contains(out[j].Text, fmt.Sprintf(" of client %d ", c.Idx)) {
+							out[j].Key = key
+						}
+					}
+				}
+			}
+		}
 		for i := range out {
 			if out[i].Key != kAcc && out[i].Key != kDel {
 				continue
